@@ -129,6 +129,56 @@ func (s *sx) subst(name string, repl *sx) *sx {
 	return out
 }
 
+var refVarRe = regexp.MustCompile(`_qa[0-9]+$`)
+var refAtomRe = regexp.MustCompile(`^(sk!.*_qa[0-9]+![0-9]+|skh!.*_qa[0-9]+![0-9]+|[A-Za-z_][A-Za-z0-9_]*![0-9]+)$`)
+
+// sliceDeltas collects d from (mk_slice B (+ O d) ...) terms: offsets introduced by s[d:].
+func sliceDeltas(s *sx, out map[string]bool) {
+	if s.kids == nil {
+		return
+	}
+	if s.head() == "mk_slice" && len(s.kids) == 5 {
+		o := s.kids[2]
+		if (o.head() == "+" || o.head() == "bvadd") && len(o.kids) == 3 && closed(o.kids[2], map[string]bool{}) {
+			if d := o.kids[2].String(); len(d) < 40 && d != "0" {
+				out[d] = true
+			}
+		}
+	}
+	for _, k := range s.kids {
+		sliceDeltas(k, out)
+	}
+}
+
+// collectRefAtoms collects constants that are compared with, or passed to, functions in the goal:
+// skolem constants of reference quantifiers and named values.
+func collectRefAtoms(s *sx, out map[string]bool) {
+	if s.kids == nil {
+		return
+	}
+	h := s.head()
+	if h == "=" || strings.HasPrefix(h, "app") || strings.HasPrefix(h, "uf_") || strings.HasPrefix(h, "pure") || strings.HasPrefix(h, "op_") {
+		for _, k := range s.kids[1:] {
+			// element reads compared with / passed to something: the element is a reference term too
+			if k.head() == "select" && len(k.kids) == 3 && isElemArray(k.kids[1]) && closed(k, map[string]bool{}) {
+				if str := k.String(); len(str) < 400 {
+					out[str] = true
+				}
+			}
+			if k.isAtom() {
+				isSk := strings.HasPrefix(k.atom, "sk!") || strings.HasPrefix(k.atom, "skh!")
+				if (isSk && strings.Contains(k.atom, "_qa")) || (!isSk && refAtomRe.MatchString(k.atom) && !anyBoundRe.MatchString(k.atom)) {
+					out[k.atom] = true
+				}
+			}
+		}
+	}
+	for _, k := range s.kids {
+		collectRefAtoms(k, out)
+	}
+}
+
+var anyBoundTokRe = regexp.MustCompile(`_q[ia]?[0-9]+\b|\bq[ijbo]\b`)
 var specVarRe = regexp.MustCompile(`_qi[0-9]+$`)
 var anyBoundRe = regexp.MustCompile(`_q[ia]?[0-9]+$`)
 
@@ -149,6 +199,65 @@ func quantParts(s *sx, kind string) (name, sortS string, body *sx, ok bool) {
 	}
 	ok = true
 	return
+}
+
+// normQuant rewrites, preserving equivalence, shapes that hide quantifiers from the instantiation
+// and skolemisation passes:
+//   (= A B) over Bool with quantifiers inside  ->  (and (=> A B) (=> B A))
+//   (=> (exists k. P) B)                         ->  (forall k. (=> P B))
+//   (=> (or X Y) B)                              ->  (and (=> X B) (=> Y B))   when X or Y has a quantifier
+func normQuant(h *sx) *sx {
+	if h.kids == nil || !containsQuant(h) {
+		return h
+	}
+	switch h.head() {
+	case "=":
+		if len(h.kids) == 3 && (containsQuant(h.kids[1]) || containsQuant(h.kids[2])) {
+			a, b := normQuant(h.kids[1]), normQuant(h.kids[2])
+			imp := &sx{atom: "=>"}
+			return &sx{kids: []*sx{{atom: "and"}, normQuant(&sx{kids: []*sx{imp, a, b}}), normQuant(&sx{kids: []*sx{imp, b, a}})}}
+		}
+		return h
+	case "=>":
+		if len(h.kids) != 3 {
+			return h
+		}
+		a, b := normQuant(h.kids[1]), normQuant(h.kids[2])
+		if a.head() == "exists" {
+			name, sortS, body, ok := quantParts(a, "exists")
+			if ok {
+				binder := &sx{kids: []*sx{{kids: []*sx{{atom: name}, mustParse(sortS)}}}}
+				return &sx{kids: []*sx{{atom: "forall"}, binder, normQuant(&sx{kids: []*sx{{atom: "=>"}, body, b}})}}
+			}
+		}
+		if a.head() == "or" && containsQuant(a) {
+			out := &sx{kids: []*sx{{atom: "and"}}}
+			for _, k := range a.kids[1:] {
+				out.kids = append(out.kids, normQuant(&sx{kids: []*sx{{atom: "=>"}, k, b}}))
+			}
+			return out
+		}
+		return &sx{kids: []*sx{h.kids[0], a, b}}
+	case "and", "or", "not":
+		out := &sx{kids: []*sx{h.kids[0]}}
+		for _, k := range h.kids[1:] {
+			out.kids = append(out.kids, normQuant(k))
+		}
+		return out
+	case "forall", "exists":
+		if len(h.kids) == 3 {
+			return &sx{kids: []*sx{h.kids[0], h.kids[1], normQuant(h.kids[2])}}
+		}
+	}
+	return h
+}
+
+func mustParse(s string) *sx {
+	p, ok := parseSx(s)
+	if !ok {
+		return &sx{atom: s}
+	}
+	return p
 }
 
 // skolemize replaces positive universal quantifiers of the goal by fresh constants.
@@ -334,7 +443,7 @@ func closed(s *sx, bound map[string]bool) bool {
 
 // instances returns consequences of the hypothesis h obtained by instantiating its positive,
 // spec-generated, index-sorted universal quantifiers at the candidate terms.
-func instances(h *sx, idxSort string, cands []*sx, depth int, budget *int) []*sx {
+func instances(h *sx, idxSort string, cands []*sx, refCands []*sx, depth int, budget *int) []*sx {
 	if depth > 2 || *budget <= 0 {
 		return nil
 	}
@@ -342,13 +451,13 @@ func instances(h *sx, idxSort string, cands []*sx, depth int, budget *int) []*sx
 	case "and":
 		var out []*sx
 		for _, k := range h.kids[1:] {
-			out = append(out, instances(k, idxSort, cands, depth, budget)...)
+			out = append(out, instances(k, idxSort, cands, refCands, depth, budget)...)
 		}
 		return out
 	case "=>":
 		if len(h.kids) == 3 {
 			var out []*sx
-			for _, i := range instances(h.kids[2], idxSort, cands, depth, budget) {
+			for _, i := range instances(h.kids[2], idxSort, cands, refCands, depth, budget) {
 				out = append(out, &sx{kids: []*sx{h.kids[0], h.kids[1], i}})
 			}
 			return out
@@ -360,26 +469,46 @@ func instances(h *sx, idxSort string, cands []*sx, depth int, budget *int) []*sx
 			if ok {
 				fa := &sx{kids: []*sx{{atom: "forall"}, {kids: []*sx{{kids: []*sx{{atom: name}, {atom: sortS}}}}}, {kids: []*sx{{atom: "not"}, body}}}}
 				if p, ok := parseSx(fa.String()); ok {
-					return instances(p, idxSort, cands, depth, budget)
+					return instances(p, idxSort, cands, refCands, depth, budget)
 				}
 			}
 		}
 		return nil
 	case "forall":
 		name, sortS, body, ok := quantParts(h, "forall")
-		if !ok || sortS != idxSort || !specVarRe.MatchString(name) {
+		if !ok {
+			return nil
+		}
+		use := cands
+		if refVarRe.MatchString(name) && sortS == "Int" {
+			// quantifier over references: instantiate at the reference constants of the goal.
+			// Nested reference quantifiers (order axioms over triples) are left to the solver's
+			// own instantiation: ground-instantiating them is cubic noise.
+			inner := body
+			for inner.head() == "=>" && len(inner.kids) == 3 {
+				inner = inner.kids[2]
+			}
+			if inner.head() == "forall" {
+				if n2, _, _, ok2 := quantParts(inner, "forall"); ok2 && refVarRe.MatchString(n2) {
+					return nil
+				}
+			}
+			use = refCands
+		} else if sortS != idxSort || !specVarRe.MatchString(name) {
 			return nil
 		}
 		var out []*sx
-		for _, c := range cands {
+		for _, c := range use {
 			if *budget <= 0 {
 				break
 			}
 			b := body.subst(name, c)
-			inner := instances(b, idxSort, cands, depth+1, budget)
+			inner := instances(b, idxSort, cands, refCands, depth+1, budget)
 			if len(inner) > 0 {
 				out = append(out, inner...)
-			} else if !containsQuant(b) {
+			}
+			if !containsQuant(b) || len(inner) == 0 {
+				// keep the (possibly still quantified) instance itself as well
 				*budget--
 				out = append(out, b)
 			}
@@ -417,11 +546,14 @@ func preprocess(pc []string, goal string, mode Mode) (hyps []string, newGoal str
 	}
 	n := 0
 	pc = append([]string(nil), pc...)
+	g = normQuant(g)
 	g = skolemize(g, idxSort, &extraDecls, &n)
 	// peel implications: proving (=> A B) is proving B with A among the hypotheses
 	candSet := map[string]bool{}
+	var peeledAnte []*sx
 	for g.head() == "=>" && len(g.kids) == 3 {
 		a := g.kids[1]
+		peeledAnte = append(peeledAnte, a)
 		indexCandidates(a, candSet, map[string]bool{})
 		if a.head() == "and" {
 			for _, k := range a.kids[1:] {
@@ -443,8 +575,14 @@ func preprocess(pc []string, goal string, mode Mode) (hyps []string, newGoal str
 			continue
 		}
 		if strings.Contains(c, "(exists ") {
+			changed := false
+			if np := normQuant(p); np != p {
+				p, changed = np, true
+			}
 			if np := skolemizeHyp(p, &extraDecls, &n); np != p {
-				p = np
+				p, changed = np, true
+			}
+			if changed {
 				c = p.String()
 			}
 		}
@@ -507,7 +645,44 @@ func preprocess(pc []string, goal string, mode Mode) (hyps []string, newGoal str
 			add("(bvadd " + b + " #x0000000000000001)")
 		}
 	}
-	if len(cands) == 0 {
+	// slicing offsets: s[d:] shifts indices by d, so c+d and c-d are index terms of interest too
+	deltas := map[string]bool{}
+	for _, p := range parsed {
+		if p != nil {
+			sliceDeltas(p, deltas)
+		}
+	}
+	nd := 0
+	for _, dlt := range sortedKeys(deltas) {
+		if nd >= 3 {
+			break
+		}
+		nd++
+		for _, b := range base {
+			if mode == ModeInt {
+				add("(+ " + b + " " + dlt + ")")
+				add("(- " + b + " " + dlt + ")")
+			} else {
+				add("(bvadd " + b + " " + dlt + ")")
+				add("(bvsub " + b + " " + dlt + ")")
+			}
+		}
+	}
+	// reference constants of the goal: instantiation terms for quantifiers over references
+	var refCands []*sx
+	if mode == ModeInt {
+		rs := map[string]bool{}
+		collectRefAtoms(g, rs)
+		for _, a := range peeledAnte {
+			collectRefAtoms(a, rs)
+		}
+		for _, k := range sortedKeys(rs) {
+			if len(refCands) < 8 {
+				refCands = append(refCands, mustParse(k))
+			}
+		}
+	}
+	if len(cands) == 0 && len(refCands) == 0 {
 		return
 	}
 	if strings.Contains(newGoal, "(exists ") {
@@ -520,7 +695,7 @@ func preprocess(pc []string, goal string, mode Mode) (hyps []string, newGoal str
 		if p == nil || !containsQuant(p) {
 			continue
 		}
-		for _, i := range instances(p, idxSort, cands, 0, &budget) {
+		for _, i := range instances(p, idxSort, cands, refCands, 0, &budget) {
 			hyps = append(hyps, i.String())
 		}
 	}
